@@ -108,18 +108,25 @@ PRE_Q = ("From Coq Require Import ZArith NArith List PrimFloat.\nImport ListNota
          "From RD Require Import Base Model.Dataset Model.Default Model.Queries.\n")
 
 
-def queries_stream(rng, thorough, streams, viol, samples):
+def queries_stream(rng, thorough, streams, viol, samples, ds=None):
     """C15: exhaustive over all nuclides: half-lives in every unit (bit-exact vs the Coq float model),
     readable string, lists through the three interfaces, pairwise look-ups inside each chain vs the data file."""
     import numpy as np
-    d = np.load(os.path.join(C.REPO, "radioactivedecay/icrp107_ame2020_nubase2020/decay_data.npz"), allow_pickle=True)
+    d = np.load(os.path.join(C.SCRATCH, "synth", "decay_data.npz") if ds == "synth" else
+                os.path.join(C.REPO, "radioactivedecay/icrp107_ame2020_nubase2020/decay_data.npz"), allow_pickle=True)
     names = [str(x) for x in d["nuclides"]]
+    tag = "queries" + ("_" + ds if ds else "")
     units = TIME if thorough else (["s", "y"] + rng.sample(TIME, 6))
     year_nucs = [str(n) for n, h in zip(d["nuclides"], d["hldata"]) if str(h[1]) == "y"][:3]
     other = [str(n) for n, h in zip(d["nuclides"], d["hldata"]) if str(h[1]) in ("d", "h") and float(h[0]) != math.inf][:3]
-    impl = run_impl("impl_queries.py", {"units": TIME, "pairs": True, "second_dataset": year_nucs[:2] + other[:1],
-                                         "second_probe": year_nucs[2:] + other[1:]})
-    second = impl.pop()["second"]
+    req = {"units": TIME, "pairs": True}
+    if ds:
+        req["ds"] = ds
+        units = TIME
+    else:
+        req.update(second_dataset=year_nucs[:2] + other[:1], second_probe=year_nucs[2:] + other[1:])
+    impl = run_impl("impl_queries.py", req)
+    second = impl.pop()["second"] if not ds else []
     terms, bad_prop = [], []
     for r in second:
         for got, exp, lab in ((r["default"], r["expect_default"], "default data set"), (r["default_again"], r["expect_default"], "default data set (after querying a second data set)"),
@@ -154,13 +161,15 @@ def queries_stream(rng, thorough, streams, viol, samples):
         if any(r["hl"][u].startswith("ERR") for u in TIME):
             bad_prop.append((name, "half_life raised", r["hl"]))
         terms.append(f"(HC {Q.cstr(name)} [{vals}] {Q.cstr(r['hl']['readable'][4:])})")
-    bad, errs = Q.run_cases("queries", PRE_Q, "hlcase", terms, "check_hlcase Default", shard=100)
-    streams["queries"] = {"cases": len(impl) * (len(units) + 1), "nuclides": len(impl), "units_checked_in_coq": len(units),
+    bad, errs = Q.run_cases(tag, PRE_Q.replace("Model.Default", "Model.Default Model.Synth"), "hlcase", terms,
+                            "check_hlcase " + ("Synth" if ds == "synth" else "Default"), shard=100)
+    streams[tag] = {"cases": len(impl) * (len(units) + 1), "nuclides": len(impl), "units_checked_in_coq": len(units),
                           "pairs": n_pairs, "model_disagrees": len(bad), "impl_property_failures": len(bad_prop),
                           "coq_errors": len(errs), "exhaustive": True,
-                          "what": "all nuclides x time units (+readable) through DecayData/Nuclide/Inventory; all pairs inside each chain"}
+                          "what": "all nuclides x time units (+readable) through DecayData/Nuclide/Inventory; all pairs inside each chain"
+                            + (" - on the synthetic data set (states p q r x, every storage unit, 365.25-day year)" if ds else "")}
     for name, why, det in bad_prop[:4]:
-        viol.append({"name": f"query-{len(viol)}", "found_input": True, "key": f"query:{name}:{why}",
+        viol.append({"name": f"{tag}-{len(viol)}", "found_input": True, "key": f"query:{name}:{why}",
                      "payload": {"fails": why, "input": name, "detail": det, "entry": "DecayData/Nuclide/Inventory queries"}})
     for i in bad[:3]:
         viol.append({"name": f"query-model-{i}", "found_input": False, "key": f"query-model:{names[i]}",
@@ -169,7 +178,7 @@ def queries_stream(rng, thorough, streams, viol, samples):
     if errs:
         viol.append({"name": "queries-coq", "found_input": False, "key": "queries-coq",
                      "payload": {"broken": "model evaluation failed in Coq", "errors": errs[:2]}})
-    samples += [{"nuclide": impl[k]["name"], "half_lives": dict(list(impl[k]["hl"].items())[:4])} for k in (0, 700)]
+    samples += [{"nuclide": impl[k]["name"], "half_lives": dict(list(impl[k]["hl"].items())[:4])} for k in (0, min(700, len(impl) - 1))]
 
 
 PRE_T = ("From Coq Require Import ZArith NArith List PrimFloat.\nImport ListNotations.\n"
